@@ -264,7 +264,9 @@ class RaggedArray(IndexableArray, np.lib.mixins.NDArrayOperatorsMixin):
             if self._shape.lengths[-1] == 0:
                 first_last_empty_row = np.searchsorted(self._shape.starts, self._shape.starts[-1], side='left')
                 result = ufunc.reduceat(self.ravel(), self._shape.starts[:first_last_empty_row])
-                result = np.pad(result, (0, len(self._shape.starts)-first_last_empty_row), constant_values=ufunc.identity)
+                # ufuncs without an identity (maximum, minimum) have no defined value for an empty row: pad with zeros
+                fill = ufunc.identity if ufunc.identity is not None else 0
+                result = np.pad(result, (0, len(self._shape.starts)-first_last_empty_row), constant_values=fill)
             else:
                 result = ufunc.reduceat(self.ravel(), self._shape.starts)
 
